@@ -63,6 +63,7 @@ type vfMuxCfg struct {
 	ctxVia     string // "": NewFContext per caller; "clone" / "fclone": every caller clones one inbound context (an FContextImpl / a third-party FContext wrapping one)
 	malformed bool // the sequence contains a frame that is not well-formed
 	burst    bool  // the peer sends the whole sequence at once, after every caller's request arrived
+	gap      uint64 // distance between the op ids of successive callers (0: consecutive)
 }
 
 func vfParseMuxCfg(s string) vfMuxCfg {
@@ -100,6 +101,8 @@ func vfParseMuxCfg(s string) vfMuxCfg {
 			c.tviaHeader = p[1] == "header"
 		case "ctx":
 			c.ctxVia = p[1]
+		case "gap":
+			c.gap, _ = strconv.ParseUint(p[1], 10, 64)
 		case "f":
 			for _, t := range strings.Split(p[1], ".") {
 				if t == "u" {
@@ -145,6 +148,11 @@ func vfMuxMake(scn string) (func(), func(*vsched.Exec) (string, *vsched.Violatio
 		st.tr = tr
 		var inbound FContext
 		for i := 0; i < cfg.n; i++ {
+			if cfg.gap > 1 && i > 0 {
+				// other parts of the process made contexts in between: the op ids of the requests in
+				// flight are cfg.gap apart (equal in their low bits when the gap is a power of two)
+				nextOpID += cfg.gap - 1
+			}
 			ctx := NewFContext(fmt.Sprintf("cid%d", i))
 			switch cfg.ctxVia {
 			case "clone":
@@ -517,6 +525,16 @@ func init() {
 			// third-party type)
 			for _, f := range []string{"2.1", "1.2", "2"} {
 				out = append(out, "n=2,t=5/5,ctx=clone,f="+f, "n=2,t=5/5,ctx=fclone,f="+f)
+			}
+			// op ids in flight that agree in their low 6 / 8 / 16 / 32 bits (whatever an index or a
+			// narrower integer might keep of them)
+			for _, gap := range []uint64{64, 256, 65536, 1 << 32} {
+				for _, f := range []string{"1.1.2", "2.2.1", "1.2.1", "2.1.2"} {
+					if tier != "thorough" && gap > 64 && (f == "1.2.1" || f == "2.1.2") {
+						continue
+					}
+					out = append(out, fmt.Sprintf("n=2,t=5/5,gap=%d,f=%s", gap, f))
+				}
 			}
 			// the timeout given through the request header instead of SetTimeout
 			for _, f := range []string{"", "2", "2.1"} {
